@@ -229,28 +229,46 @@ def average(ctx, obs, rule='AXIS-pair'):
     prog = ctx.prog
     q = 'data.computations.average_dataset_by'
     f = prog.func(q)
-    # rows selected by (inverse == i) are averaged over axis 0 and stored at row i; labels are the unique values
-    ok_sel = ok_mean = ok_store = False
+    # rows of a condition are selected on the observation axis, averaged over that axis and stored at the condition's row.
+    # Recognised correct forms discharge, recognised WRONG forms (mask on the channel axis, mean over axis 1) are violations, anything
+    # else is undecided - the order typing (ORD) decides which rows belong to which label.
     r0 = ctx.dep.result(q)
     avg = None
     for node, _, _ in r0.returns:
         if node is not None and isinstance(node.value, ast.Tuple) and node.value.elts and isinstance(node.value.elts[0], ast.Name):
             avg = node.value.elts[0].id
+    sel_ok = sel_bad = None
     for n in ast.walk(f.node):
         if isinstance(n, ast.Subscript) and isinstance(n.value, ast.Attribute) and n.value.attr == 'measurements' \
-                and isinstance(n.slice, ast.Tuple) and isinstance(n.slice.elts[0], ast.Compare):
-            ok_sel = True
-        if isinstance(n, ast.Call) and isinstance(n.func, ast.Attribute) and n.func.attr in ('mean', 'nanmean'):
-            ax = next((k.value for k in n.keywords if k.arg == 'axis'), None)
-            ok_mean = ok_mean or (isinstance(ax, ast.Constant) and ax.value == 0)
-        if isinstance(n, ast.Assign) and isinstance(n.targets[0], ast.Subscript) and isinstance(n.targets[0].value, ast.Name) \
-                and n.targets[0].value.id == avg:
-            ok_store = True
-    obs.check(ok_sel, rule, q, 'rows of a condition are selected on the observation axis by the label index',
-              'no measurements[inverse == i, :] selection', '', where(prog, f, f.node))
-    obs.check(ok_mean, rule, q, 'condition means are taken over the observation axis (axis=0)', 'mean not over axis 0', '',
-              where(prog, f, f.node))
-    obs.check(ok_store, rule, q, 'the mean of condition i is stored at row i', 'no store into average[i]', '', where(prog, f, f.node))
+                and isinstance(n.slice, ast.Tuple) and len(n.slice.elts) == 2:
+            a0, a1 = n.slice.elts
+            full = lambda x: isinstance(x, ast.Slice) and x.lower is None and x.upper is None
+            if full(a1) and not full(a0):
+                sel_ok = n
+            elif full(a0) and not full(a1):
+                sel_bad = n
+    con = 'rows of a condition are selected on the observation axis'
+    if sel_bad is not None:
+        obs.bad(rule, q, con, f'`{norm(sel_bad)}` applies the per-observation selection to the channel axis', where(prog, f, sel_bad))
+    elif sel_ok is not None:
+        obs.ok(rule, q, con, f'`{norm(sel_ok)[:60]}`', where(prog, f, sel_ok))
+    else:
+        obs.unk(rule, q, con, 'selection form not recognised', where(prog, f, f.node))
+    means = [n for n in ast.walk(f.node) if isinstance(n, ast.Call) and isinstance(n.func, ast.Attribute) and n.func.attr in ('mean', 'nanmean')]
+    axes = []
+    for n in means:
+        ax = next((k.value for k in n.keywords if k.arg == 'axis'), None)
+        axes.append(ax.value if isinstance(ax, ast.Constant) else None)
+    con = 'condition means are taken over the observation axis (axis=0)'
+    if any(a == 1 for a in axes):
+        obs.bad(rule, q, con, 'a mean over axis 1 averages over channels instead of observations', where(prog, f, means[0]))
+    elif any(a == 0 for a in axes):
+        obs.ok(rule, q, con, '', where(prog, f, means[0]))
+    else:
+        obs.unk(rule, q, con, 'no mean(axis=...) recognised', where(prog, f, f.node))
+    stores = [n for n in ast.walk(f.node) if isinstance(n, ast.Assign) and isinstance(n.targets[0], ast.Subscript)
+              and isinstance(n.targets[0].value, ast.Name) and n.targets[0].value.id == avg]
+    obs.soft(bool(stores), rule, q, 'the mean of condition i is stored at row i', 'no store into the returned array', '', where(prog, f, f.node))
     r = ctx.dep.result(q)
     for node, _, _ in r.returns:
         if node is not None and isinstance(node.value, ast.Tuple) and len(node.value.elts) >= 2:
